@@ -136,6 +136,12 @@ class ReadDeviceInformationResponse(ModbusResponse):
         self.space_left = None
 
     def _encode_object(self, object_id, data):
+        if 2 + len(data) > 253 - 7:
+            # Objects are indivisible and this one does not even fit an
+            # otherwise empty response (7 byte header + 2 + 245 > 253), so
+            # it can never be sent. Leave it out: announcing it as the next
+            # object would make the client ask for it again for ever.
+            return b''
         self.space_left -= (2 + len(data))
         if self.space_left <= 0:
             raise _OutOfSpaceException(object_id)
